@@ -45,4 +45,17 @@ def main(tier, seed, replay=None, pid='C02'):
     return ck.finish()
 
 
-EXTRA = {}
+def _traces(names):
+    def f(ck, tier):
+        import scen
+        import tracecheck
+        common_names = names if names else list(scen.SCEN)
+        tracecheck.check_traces(ck, ck.pid, names=common_names)
+    return f
+
+
+import tracecheck  # noqa: E402
+
+EXTRA = {'C02': _traces(None), 'C03': _traces(None), 'C09': _traces(['add_dup', 'topack', 'topack_nh', 'topack_nh_rt0', 'topack_multi', 'import_same']),
+         'C10': _traces(['pack_clean', 'pack_auto', 'repack', 'repack_keep']), 'C11': _traces(['delete', 'repack', 'repack_keep']),
+         'C13': _traces(tracecheck.NOREPACK_SCENARIOS), 'C14': _traces(['import_same', 'import_diff', 'import_same_stream', 'import_diff_stream'])}
